@@ -240,11 +240,11 @@ def _install_patches() -> None:
             if state_provider is None:
                 def state_provider(pin=pin):
                     cur = _rt()
-                    # one sample per pass, like the firmware: every is_pressed() of a pass sees it
-                    if pin not in cur.button_samples:
-                        value = cur.digital_sample(pin)
-                        cur.button_samples[pin] = bool(value) if value is not None else False
-                    return cur.button_samples[pin]
+                    # The firmware samples a button once in setup() and once per loop() pass; every
+                    # is_pressed() of a pass sees that pass's sample: sample k+1 belongs to pass k.
+                    seq = cur.dr.get(_pin_number(pin)) or [0]
+                    idx = cur.in_pass + 1
+                    return bool(seq[idx if idx < len(seq) else len(seq) - 1])
             super().__init__(pin, on_click=on_click, state_provider=state_provider)
             rt.devices.append(("button", self))
 
